@@ -265,6 +265,8 @@ def run_history(hist, checks):
             if kind in ('cmd', 'at', 'script') and excl_before and not excl_after and ext_:
                 if [c for c in outs if c in ext_] != ext_:
                     fails.append(fail('episode closed by %r without exactly the exit script %r: %r' % (ev[1], ext_, outs), k, hist, 'C06:exit-script'))
+            if excl_before and not excl_after and kind == 'script' and not (ev[1] == 'gcode' and ev[2] == 'afterPrintDone'):
+                fails.append(fail('episode ended by the script hook for %r / %r (a pause, a cancel script, a resume ... is not the end of the print): %r' % (ev[1], ev[2], r), k, hist, 'C06:hook-name'))
             if excl_before and not excl_after and (kind in ('settings', 'api', 'get') or (kind == 'event' and ev[1] in PS.OTHER_EVENTS)):
                 fails.append(fail('episode ended by %r: nothing is flushed, the deferred commands and the exit script are lost' % (ev,), k, hist, 'C06:lost-episode'))
         # ---------------- C15: the script hook
